@@ -3,7 +3,10 @@ package rules
 import (
 	"go/ast"
 	"go/token"
+	"go/types"
 	"strings"
+
+	"golang.org/x/tools/go/packages"
 
 	"jsverif/internal/core"
 )
@@ -199,7 +202,7 @@ func c01diamond(c *core.Ctx) {
 					if strings.HasSuffix(f, ".collectAllowedJsonTypes") {
 						recIdx = i
 					}
-					if f == "delete" && recIdx >= 0 && i > recIdx && len(call.Args) == 2 && strings.HasSuffix(core.ExprStr(call.Args[0]), ".foundTypeNames") {
+					if f == "delete" && recIdx >= 0 && i > recIdx && len(call.Args) == 2 && isStringKeyedSet(d.Pkg, call.Args[0]) {
 						if key == "" || core.ExprStr(call.Args[1]) == key {
 							ok = true
 						}
@@ -215,4 +218,27 @@ func c01diamond(c *core.Ctx) {
 		return true
 	})
 	c.Check(ok, R, "collectAllowedJsonTypes:path-scoped", c.P.Pos(d.Decl.Pos()), "the visited set of collectAllowedJsonTypes is shrunk after each recursive call", "the set only grows: a type referenced over two different branches is reported as a recursion (code 1303) although no cycle exists")
+}
+
+// isStringKeyedSet: a map[string]struct{} / map[string]bool, whatever it is called and wherever it
+// lives (a field of the checker, a parameter threaded through the walk).
+func isStringKeyedSet(pk *packages.Package, e ast.Expr) bool {
+	t := core.TypeOf(pk, e)
+	if t == nil {
+		return false
+	}
+	mt, ok := t.Underlying().(*types.Map)
+	if !ok {
+		return false
+	}
+	if kb, isB := mt.Key().Underlying().(*types.Basic); !isB || kb.Info()&types.IsString == 0 {
+		return false
+	}
+	switch el := mt.Elem().Underlying().(type) {
+	case *types.Struct:
+		return el.NumFields() == 0
+	case *types.Basic:
+		return el.Kind() == types.Bool
+	}
+	return false
 }
